@@ -78,3 +78,43 @@ def has_feature(table, pred):
                     if pred('leaf', l):
                         return True
     return False
+
+
+def leaf_violations(table, v, path=''):
+    """what the parsed VALUES alone show about strictness: a byte string of declared constant size has that size; a
+    marker-delimited string ends with its first delimiter (kept) or does not contain it (not kept).  Returns messages."""
+    out = []
+    if not (isinstance(v, tuple) and v[0] == 'pkt'):
+        return out
+    pc = table[v[1]]
+
+    def leaf(l, x, where):
+        if not isinstance(x, bytes):
+            return
+        if l[0] == 'dsized' and l[2] == 'const' and isinstance(l[1][1], int) and l[1][1] >= 0 and len(x) != l[1][1]:
+            out.append(f"{where}: Data({l[1][1]}) holds {len(x)} bytes")
+        if l[0] == 'dmarker':
+            m = l[1]
+            if l[2]:
+                if not x.endswith(m) or x.find(m) != len(x) - len(m):
+                    out.append(f"{where}: a string delimited by {m!r} (kept) holds {x!r}: it does not end with its first delimiter")
+            elif m in x:
+                out.append(f"{where}: a string delimited by {m!r} (not kept) holds {x!r}, which contains the delimiter")
+
+    def elem(el, x, where):
+        if el[0] == 'leaf':
+            leaf(el[1], x, where)
+        elif isinstance(x, tuple) and x[0] == 'pkt':
+            out.extend(leaf_violations(table, x, where + '/'))
+    for i, fd in enumerate(pc['fields']):
+        b = fd['body']
+        x = v[2].get(i)
+        where = f"{path}K{v[1]}.f{i}"
+        if b[0] == 'elem':
+            elem(b[1], x, where)
+        elif b[0] == 'seq' and isinstance(x, list):
+            for y in x:
+                elem(b[1], y, where + '[]')
+        elif b[0] == 'opt' and x is not None:
+            elem(b[1], x, where)
+    return out
